@@ -300,6 +300,21 @@ var patPool = []string{"*", "k*", "k?", "k[12]", "k[^1]", "k[!1]", "?2", "k1", "
 
 func (g *Gen) pattern() string { return g.patP[g.pick(len(g.patP))] }
 
+// renameTarget: another key of the universe, or - now and then - the same name in the other
+// letter case (a different name byte-wise; it is renamed back later by the same rule).
+func (g *Gen) renameTarget(k string) string {
+	if g.chance(0.1) {
+		t := strings.ToUpper(k)
+		if t == k {
+			t = strings.ToLower(k)
+		}
+		if t != k {
+			return t
+		}
+	}
+	return g.key()
+}
+
 func (g *Gen) keyOp() *Op {
 	k := g.key()
 	switch g.pick(22) {
@@ -343,9 +358,9 @@ func (g *Gen) keyOp() *Op {
 	case 15:
 		return KRandom()
 	case 16, 17:
-		return KRename(k, g.key())
+		return KRename(k, g.renameTarget(k))
 	case 18:
-		return KRenameNX(k, g.key())
+		return KRenameNX(k, g.renameTarget(k))
 	default:
 		return KScan(g.pick(4), g.pattern(), g.pick(6), g.pick(4)-1)
 	}
@@ -687,6 +702,9 @@ var scanCases = []struct {
 	{"[!x]?", []string{"m0"}, []string{"m00"}},
 	{"", []string{""}, []string{"m"}},
 	{"*", []string{"m0", "", "]"}, nil},
+	{"a[1]", []string{"a1"}, []string{"a[1]", "a"}},
+	{"a\\[1]", []string{"a[1]"}, []string{"a1"}},
+	{"k[bce]y", []string{"kby", "key"}, []string{"kay", "k[bce]y"}},
 }
 
 // scanBurst fills one collection with more elements than a default page holds (10), the ones the
